@@ -30,7 +30,7 @@ import (
 )
 
 type opSpec struct {
-	Op    string `json:"op"`              // add | adv | cancel | close
+	Op    string `json:"op"`              // add | adv | cancel | close | run2 (Run called once more)
 	N     int    `json:"n,omitempty"`     // add: number of consecutive Add calls; adv: ms
 	Idle  bool   `json:"idle,omitempty"`  // the op may start only when nothing else can move
 	After int    `json:"after,omitempty"` // the op may start only after this many Add calls were issued
@@ -330,11 +330,15 @@ func runSchedule(b, hb *tv.Batch, prog program, seed int64) result {
 	var vmu sync.Mutex
 
 	type client struct {
-		ops  []opSpec
-		next int
-		rep  int
-		cur  *sched.Task
+		ops   []opSpec
+		next  int
+		rep   int
+		cur   *sched.Task
+		curOp string
 	}
+	ctx2, cancel2 := context.WithCancel(context.Background()) // for the extra Run calls (which must be rejected at once)
+	defer cancel2()
+	var run2Called atomic.Bool
 	clients := make([]*client, len(prog.Clients))
 	for i, ops := range prog.Clients {
 		clients[i] = &client{ops: ops}
@@ -348,10 +352,29 @@ func runSchedule(b, hb *tv.Batch, prog program, seed int64) result {
 		}
 		return n
 	}
+	// calls of Add / Close still in flight (the stuck law is about these)
+	inflightAddClose := func() int {
+		n := 0
+		for _, c := range clients {
+			if c.cur != nil && !c.cur.Done() && c.curOp != "run2" {
+				n++
+			}
+		}
+		return n
+	}
 	startOp := func(c *client, ci int) func() {
 		return func() {
 			o := c.ops[c.next]
+			c.curOp = o.Op
 			switch o.Op {
+			case "run2":
+				c.next++
+				run2Called.Store(true)
+				rec.ev("run2_call", tv.M{"c": ci})
+				c.cur = ctl.Go(fmt.Sprintf("c%d:run2", ci), func() {
+					rerr := rl.Run(ctx2, ch)
+					rec.ev("run2_ret", tv.M{"c": ci, "err": rerr != nil})
+				})
 			case "add":
 				if c.rep == 0 {
 					c.rep = o.N
@@ -483,10 +506,13 @@ func runSchedule(b, hb *tv.Batch, prog program, seed int64) result {
 	res.schedule = d.Log
 	res.err = err
 	if err == nil {
-		res.stuck = inflight()
+		res.stuck = inflightAddClose()
 		res.runStuck = canStop.Load() && !runDone.Load()
 		if res.stuck > 0 || res.runStuck {
 			res.deadlock = classifyDeadlock(baseline)
+			if res.deadlock == "close-waits" && run2Called.Load() {
+				res.deadlock = "close-waits-nobody-left-after-rejected-run" // Close waits although no goroutine of the limiter is left
+			}
 		}
 		rec.ev("stuck", tv.M{"n": res.stuck, "run": res.runStuck})
 	}
@@ -686,6 +712,13 @@ func genProgram(rng *rand.Rand) program {
 		}
 	}
 	p.NoDrain = p.Consumer == "slow" && rng.Intn(2) == 0
+	for k := rng.Intn(4) - 1; k > 0; k-- { // 0-2 further Run calls at any point
+		c := rng.Intn(nc)
+		pos := rng.Intn(len(p.Clients[c]) + 1)
+		ops := append([]opSpec{}, p.Clients[c][:pos]...)
+		ops = append(ops, opSpec{Op: "run2", Idle: rng.Intn(3) == 0})
+		p.Clients[c] = append(ops, p.Clients[c][pos:]...)
+	}
 	// ending: nothing / cancel / Close / two Closes / cancel and Close, at any point
 	end := rng.Intn(8)
 	at := func(o opSpec) opSpec {
@@ -729,6 +762,9 @@ func genSequential(rng *rand.Rand) program {
 	n := 4 + rng.Intn(8)
 	var ops []opSpec
 	for k := 0; k < n; k++ {
+		if rng.Intn(12) == 0 {
+			ops = append(ops, opSpec{Op: "run2", Idle: true})
+		}
 		if rng.Intn(5) < 3 {
 			ops = append(ops, opSpec{Op: "add", N: 1, Idle: true})
 		} else {
@@ -867,6 +903,7 @@ func TestCheck(t *testing.T) {
 	ADV := func(n int) opSpec { return opSpec{Op: "adv", N: n} }
 	CL := opSpec{Op: "close"}
 	CA := opSpec{Op: "cancel"}
+	R2 := opSpec{Op: "run2"}
 	after := func(o opSpec, n int) opSpec { o.After = n; return o }
 	idle := func(o opSpec) opSpec { o.Idle = true; return o }
 	staged := []program{
@@ -894,6 +931,13 @@ func TestCheck(t *testing.T) {
 		{I: 1, M: 2, Consumer: "slow", NoDrain: true, Seq: true, Clients: [][]opSpec{{idle(A(1)), idle(A(1)), idle(ADV(3)), idle(CL)}}},
 		{I: 1, M: 2, Consumer: "slow", NoDrain: true, Clients: [][]opSpec{{A(1), A(1)}, {after(CL, 1)}, {after(CA, 2)}}},
 		{I: 2, M: 4, Cap: 1, Consumer: "slow", NoDrain: true, Clients: [][]opSpec{{A(2), ADV(1)}, {after(A(1), 1), idle(CL)}}},
+		// Run called a second / third time: while the first is running, after cancellation, after Close; it is rejected,
+		// everything else goes on unchanged and Close returns
+		{I: 1, M: 2, Consumer: "prompt", Seq: true, Clients: [][]opSpec{{idle(R2), idle(A(1)), idle(A(1)), idle(ADV(2)), idle(R2), idle(CL)}}},
+		{I: 1, M: 4, Cap: 2, Consumer: "slow", Clients: [][]opSpec{{A(2), ADV(1)}, {R2, after(R2, 1)}, {after(CL, 2)}}},
+		{I: 1, M: 2, Consumer: "prompt", Seq: true, Clients: [][]opSpec{{idle(A(1)), idle(CA), idle(R2), idle(A(1)), idle(CL)}}},
+		{I: 1, M: 2, Consumer: "prompt", Seq: true, Clients: [][]opSpec{{idle(A(1)), idle(CL), idle(R2), idle(A(1)), idle(CL)}}},
+		{I: 2, M: 4, Consumer: "prompt", Clients: [][]opSpec{{A(1), A(1)}, {R2}, {R2}, {after(CL, 1)}}},
 		// an Add racing the timer expiry and the reset to idle
 		{I: 1, M: 2, Consumer: "prompt", Clients: [][]opSpec{{A(1), idle(A(1)), idle(ADV(2))}, {after(A(1), 2)}, {after(ADV(1), 2)}}},
 		{I: 2, M: 2, Consumer: "prompt", Clients: [][]opSpec{{A(1), idle(ADV(2)), A(1)}, {after(A(1), 1)}, {after(ADV(2), 1)}}},
@@ -1015,7 +1059,7 @@ func TestCheck(t *testing.T) {
 	e.Set("long_burst_timelines", int64(nLong))
 	e.Set("parallel_volley_runs", int64(nVolley))
 	e.Set("multi_chain_timelines", int64(nChains))
-	e.Set("rule", "a case = (configuration InitialDelay 1-3 ms <= MaxDelay <= 15 ms, MaxPendingEvents unset/1-4, prompt or slow consumer; client program: 1-3 goroutines issuing Add bursts, clock advances inside / exactly at / beyond window ends, cancel, one or two Close) x (seeded schedule over the limiter's decision points coal.run.top/input/timer, coal.add.beforeSend, coal.fire.beforeSend, coal.close.beforeLock and the slow consumer); staged programs + sequential timelines (every op at a quiescent point: unique signal timeline, exact comparison) + long-burst timelines (one chain of 40/70/130 Adds inside a never-expiring window, InitialDelay 1 ms-2 s, MaxDelay up to 1 h, then expiry) + multi-chain timelines (2-3 chains with 1-4 extensions each, separated by expiry to idle, MaxDelay >= 8x InitialDelay, timed exactly) + programs whose slow consumer never reads again (Close / cancel with undelivered signals from the input, cap and timer paths) + free-running volleys (G goroutines x K simultaneous Adds at a frozen clock against cap = G*K and caps 1-4; contract only) + random programs; non-trivial = schedule longer than 6 choices; distinct by (program, schedule)")
+	e.Set("rule", "a case = (configuration InitialDelay 1-3 ms <= MaxDelay <= 15 ms, MaxPendingEvents unset/1-4, prompt or slow consumer; client program: 1-3 goroutines issuing Add bursts, clock advances inside / exactly at / beyond window ends, cancel, one or two Close, further Run calls) x (seeded schedule over the limiter's decision points coal.run.top/input/timer, coal.add.beforeSend, coal.fire.beforeSend, coal.close.beforeLock and the slow consumer); staged programs + sequential timelines (every op at a quiescent point: unique signal timeline, exact comparison) + long-burst timelines (one chain of 40/70/130 Adds inside a never-expiring window, InitialDelay 1 ms-2 s, MaxDelay up to 1 h, then expiry) + multi-chain timelines (2-3 chains with 1-4 extensions each, separated by expiry to idle, MaxDelay >= 8x InitialDelay, timed exactly) + programs whose slow consumer never reads again (Close / cancel with undelivered signals from the input, cap and timer paths) + free-running volleys (G goroutines x K simultaneous Adds at a frozen clock against cap = G*K and caps 1-4; contract only) + random programs; non-trivial = schedule longer than 6 choices; distinct by (program, schedule)")
 	for _, k := range []int{0, len(idx) / 2, len(idx) - 1} {
 		if len(idx) == 0 {
 			break
@@ -1110,6 +1154,8 @@ func modelCheck(e *ev.Evidence) {
 		{name: "MC_defect_alwaysdouble.cfg", want: "MonitorOK", workers: 2, to: 3 * time.Minute},
 		{name: "MC_defect_inputctx.cfg", want: "NoWedge", workers: 2, to: 3 * time.Minute},
 		{name: "MC_defect_bfkept.cfg", want: "MonitorOK", workers: 2, to: 3 * time.Minute},
+		{name: "MC_defect_wgleak.cfg", want: "NoWedge", workers: 2, to: 3 * time.Minute},
+		{name: "MC_small_run2.cfg", workers: 4, to: 6 * time.Minute},
 	}
 	if ev.Thorough() {
 		cfgs[0] = cfg{name: "MC_big.cfg", workers: 8, to: 40 * time.Minute}
